@@ -7,6 +7,7 @@ import (
 	"sort"
 	"strconv"
 	"strings"
+	"sync"
 	"time"
 
 	"golang.org/x/exp/rand"
@@ -19,6 +20,7 @@ func getSource() *rand.PCGSource {
 }
 
 var randSource = getSource()
+var randSourceMu sync.Mutex
 
 func _roll32(src *rand.PCGSource, dicePoints int) int {
 	// 注: int的长度至少为32位，也可以高于此数，此处只是当作32位处理
@@ -72,6 +74,9 @@ func Roll(src *rand.PCGSource, dicePoints IntType, mod int) IntType {
 		return dicePoints
 	}
 	if src == nil {
+		// 未指定种子的上下文共用全局随机源，需要加锁才能被多个VM并发使用
+		randSourceMu.Lock()
+		defer randSourceMu.Unlock()
 		src = randSource
 	}
 
